@@ -309,4 +309,73 @@ theorem safe_reach {s : State} (h : Reach s) : s.uaf = false ∧ s.dfree = false
   | init => exact safe_init
   | step hr hs ih => exact safe_step (life_reach hr) ih hs
 
+/-! ### consequences of the life-cycle invariant -/
+
+/-- a client some thread holds a counted reference on is in the client list and allocated -/
+theorem referenced_linked {s : State} (h : Reach s) (t : Tid) (c : Nat) (hc : c ∈ refsOf s t) :
+    (s.cl c).linked = true ∧ (s.cl c).alive = true := by
+  have hl := life_reach h
+  have key : (s.cl c).linked = true := by
+    cases t with
+    | app => exact hl.known .app c (by simp only [getC, alkOf, knownC]; exact List.mem_append_left _ hc)
+    | lis => exact hl.known .lis c (by simp only [getC, alkOf, knownC]; exact List.mem_append_left _ hc)
+    | inp _ => simp [refsOf] at hc
+    | out c' =>
+      have hc' : c = c' ∧ opcRun (s.cl c').opc = true := by
+        simp only [refsOf] at hc
+        revert hc; cases (s.cl c').opc <;> simp [refsO, opcRun]
+      obtain ⟨rfl, hrun⟩ := hc'
+      have hho := hl.out_inp c hrun
+      have ha : ipcAlive (s.cl c).ipc = true := by revert hho; cases (s.cl c).ipc <;> simp [ipcHasOut, ipcAlive]
+      rw [hl.inp_linked c ha]
+      revert hho; cases (s.cl c).ipc <;> simp [ipcHasOut, ipcLinked]
+  exact ⟨key, hl.linked_alive c key⟩
+
+/-- a record that is not in the client list (not yet inserted, or already taken out by
+rfbClientConnectionGone) has reference count 0: in particular the record that is freed -/
+theorem unlinked_unreferenced {s : State} (h : Reach s) (c : Nat) (hc : (s.cl c).linked = false) :
+    (s.cl c).refCount = 0 := by
+  rw [refCount_exact h c]
+  have z : ∀ t, (refsOf s t).count c = 0 := by
+    intro t
+    apply List.count_eq_zero.2
+    intro hm
+    have := (referenced_linked h t c hm).1
+    rw [hc] at this; cases this
+  rw [z, z, z]
+
+/-- when a record has been freed, neither of its threads is running any more -/
+theorem freed_has_no_threads {s : State} (h : Reach s) (c : Nat) (hc : (s.cl c).alive = false) :
+    ipcAlive (s.cl c).ipc = false ∧ opcRun (s.cl c).opc = false := by
+  have hl := life_reach h
+  have h1 : ipcAlive (s.cl c).ipc = false := by
+    cases hq : ipcAlive (s.cl c).ipc
+    · rfl
+    · have := hl.inp_alive c hq; rw [hc] at this; cases this
+  refine ⟨h1, ?_⟩
+  cases hq : opcRun (s.cl c).opc
+  · rfl
+  · have := hl.out_inp c hq
+    revert h1 this; cases (s.cl c).ipc <;> simp [ipcHasOut, ipcAlive]
+
+/-- the thread that is about to free record c (last stage of rfbClientConnectionGone) finds it
+allocated, out of the list, unreferenced, and its output thread joined or never started -/
+theorem free_is_safe {s : State} (h : Reach s) (c : Nat)
+    (hc : (s.cl c).ipc = .g .unlockS ∨ s.apc = .gone .unlockS c ∨ s.lpc = .gone .unlockS c) :
+    (s.cl c).alive = true ∧ (s.cl c).linked = false ∧ (s.cl c).refCount = 0 ∧ opcRun (s.cl c).opc = false := by
+  have hl := life_reach h
+  have h12 : (s.cl c).alive = true ∧ (s.cl c).linked = false ∧ opcRun (s.cl c).opc = false := by
+    rcases hc with e | e | e
+    · have ha : ipcAlive (s.cl c).ipc = true := by rw [e]; rfl
+      refine ⟨hl.inp_alive c ha, ?_, ?_⟩
+      · rw [hl.inp_linked c ha, e]; rfl
+      · cases hq : opcRun (s.cl c).opc
+        · rfl
+        · have := hl.out_inp c hq; rw [e] at this; cases this
+    · obtain ⟨a, i, k⟩ := hl.cr .app c false (by simp only [getC, e, crOf]; rfl)
+      exact ⟨a, k, by rw [hl.out_ns c (Or.inl i)]; rfl⟩
+    · obtain ⟨a, i, k⟩ := hl.cr .lis c false (by simp only [getC, e, crOf]; rfl)
+      exact ⟨a, k, by rw [hl.out_ns c (Or.inl i)]; rfl⟩
+  exact ⟨h12.1, h12.2.1, unlinked_unreferenced h c h12.2.1, h12.2.2⟩
+
 end VncModel.Threads
